@@ -6,8 +6,8 @@
     model's rendering of unbounded recursion (stack overflow). *)
 From Coq Require Import List NArith String.
 From V Require Import Base.Util Base.Result Model.Registry Model.Format Model.Describe
-  Model.DescribeSpec Proofs.FormatProofs Proofs.DescribeProofs Proofs.DescribeExpand
-  Proofs.DescribeLockstep Proofs.DescribeFormatTokens.
+  Model.DescribeSpec Model.AsciiSpec Model.Utf8Spec Proofs.FormatProofs Proofs.DescribeProofs Proofs.DescribeExpand
+  Proofs.DescribeLockstep Proofs.DescribeFormatTokens Proofs.DescribeAscii Proofs.DescribeUtf8.
 Import ListNotations.
 
 (** *** Termination and success.
@@ -158,12 +158,92 @@ Theorem C13_formatter_preserves_tokens :
 Proof. exact format_with_ctokens. Qed.
 Print Assumptions C13_formatter_preserves_tokens.
 
-(** Not proved: the bridge between the byte tokenizer [tokens s] of
-    C13_lockstep and the code-point tokenizer [ctokens (utf8_decode s)] (they
-    agree on every text whose non-ASCII bytes are well-formed UTF-8; all
-    punctuation is ASCII).  At run time [prop_lockstep] reads the OBSERVED
-    formatted text with [tokens] directly, and [prop_fmt_tokens] compares the
-    [ctokens] of the two observed texts. *)
+(** *** The bridge between the byte tokenizer [tokens s] of C13_lockstep and the code-point
+    tokenizer [ctokens (utf8_decode s)] of C13_format_tokens.
+    [ctok_of_tok] reads a byte token as a code-point token (a word becomes the list of its
+    bytes, a punctuation character its code; injective: [C13_ctok_of_tok_injective]).
+    The two tokenizers agree on the BYTES of every text (all separators and punctuation are
+    ASCII, so the two automata move in lockstep byte by byte): *)
+Theorem C13_tokenizers_agree :
+  forall s : string, ctokens (bytes_of_string s) = map ctok_of_tok (tokens s).
+Proof. exact tokenizers_agree. Qed.
+Print Assumptions C13_tokenizers_agree.
+
+Theorem C13_ctok_of_tok_injective :
+  forall a b : list tok, map ctok_of_tok a = map ctok_of_tok b -> a = b.
+Proof. exact map_ctok_of_tok_inj. Qed.
+Print Assumptions C13_ctok_of_tok_injective.
+
+(** on ASCII-only texts ([asciib]: every byte below 128) the code points ARE the bytes, hence
+    the code-point reading of the text is its byte reading *)
+Theorem C13_utf8_decode_ascii :
+  forall s : string, asciib s = true -> utf8_decode s = bytes_of_string s.
+Proof. exact utf8_decode_ascii. Qed.
+Print Assumptions C13_utf8_decode_ascii.
+
+Theorem C13_ascii_bridge :
+  forall s : string, asciib s = true ->
+    utf8_decode s = bytes_of_string s /\ ctokens (utf8_decode s) = map ctok_of_tok (tokens s).
+Proof. exact ascii_bridge. Qed.
+Print Assumptions C13_ascii_bridge.
+
+(** the description of a registry whose printed names (path segments, field and variant names)
+    are ASCII ([ascii_regb]) is ASCII: every other character comes from a literal of
+    description.rs, a primitive name or a decimal number *)
+Theorem C13_description_ascii :
+  forall (r : registry), ascii_regb r = true ->
+  forall (id : N) (s : string), describe r id = Ok s -> asciib s = true.
+Proof. exact describe_ascii. Qed.
+Print Assumptions C13_description_ascii.
+
+(** combined: for registries with ASCII names the FORMATTED description has exactly the atom
+    sequence of the spec tree (C13_lockstep shows this for the unformatted text only).
+    Non-ASCII identifiers: C13_formatted_lockstep_utf8 below (there the bytes of a word and
+    its code points differ -- [utf8_decode_non_ascii] in Proofs/DescribeAscii.v). *)
+Theorem C13_formatted_lockstep :
+  forall (r : registry) (id : N) (s : string) (l : list N),
+    words_okb r = true -> paths_only_on_items r = true -> ascii_regb r = true ->
+    describe r id = Ok s -> describe_fmt r id = Ok l ->
+    exists (tr : dtree) (st : sstate),
+      spec_tree r (name_fuel r) (desc_fuel r) ([], []) id = Some (tr, st) /\
+      ctokens l = map ctok_of_tok (atoms tr).
+Proof. exact describe_formatted_lockstep. Qed.
+Print Assumptions C13_formatted_lockstep.
+
+(** *** ... and beyond ASCII.  [utf8_wfb] (Model/Utf8Spec.v): the byte list splits into single
+    bytes below 128 and 2- / 3- / 4-byte sequences (by the lead byte, as the decoder reads
+    them) whose bytes are all >= 128 and which decode to a code point >= 128 -- true of every
+    valid UTF-8 text.  [dtok_of_tok] reads a byte token as a code-point token by DECODING the
+    word.  On such texts decoding commutes with tokenization (no sequence contains or decodes
+    to a separator or punctuation character): *)
+Theorem C13_utf8_bridge :
+  forall s : string, utf8_okb s = true -> ctokens (utf8_decode s) = map dtok_of_tok (tokens s).
+Proof. exact utf8_bridge. Qed.
+Print Assumptions C13_utf8_bridge.
+
+(** the description of a registry whose printed names are well-formed UTF-8 is well-formed *)
+Theorem C13_description_utf8 :
+  forall (r : registry) (id : N) (s : string),
+    utf8_regb r = true -> describe r id = Ok s -> utf8_okb s = true.
+Proof. exact describe_utf8. Qed.
+Print Assumptions C13_description_utf8.
+
+Theorem C13_ascii_reg_is_utf8 : forall r : registry, ascii_regb r = true -> utf8_regb r = true.
+Proof. exact ascii_reg_utf8. Qed.
+Print Assumptions C13_ascii_reg_is_utf8.
+
+(** combined: for every registry whose names are well-formed UTF-8 (what scale-info can carry:
+    Rust identifiers are valid UTF-8) the FORMATTED description, read as code points, has the
+    atom sequence of the spec tree with every word decoded *)
+Theorem C13_formatted_lockstep_utf8 :
+  forall (r : registry) (id : N) (s : string) (l : list N),
+    words_okb r = true -> paths_only_on_items r = true -> utf8_regb r = true ->
+    describe r id = Ok s -> describe_fmt r id = Ok l ->
+    exists (tr : dtree) (st : sstate),
+      spec_tree r (name_fuel r) (desc_fuel r) ([], []) id = Some (tr, st) /\
+      ctokens l = map dtok_of_tok (atoms tr).
+Proof. exact describe_formatted_lockstep_utf8. Qed.
+Print Assumptions C13_formatted_lockstep_utf8.
 
 (** *** Every type reachable from the id through fields, variants' fields and
     element types -- in particular every struct and enum -- is written out in
